@@ -486,13 +486,16 @@ def finish(rep: Report, seed: int = 0, write: bool = True, quiet: bool = False) 
     known = load_known()
     open_keys = {e["key"]: e for e in known.get("open", []) if e.get("property") == rep.prop}
     # floors: a rule matching fewer sites than confirmed by hand is an analysis failure
-    for rule, minimum in rep.floors.items():
-        n = rep.count(rule)
-        if n < minimum:
-            raise AnalysisError(
-                f"{rep.prop}: rule {rule} matched {n} instance(s), below the confirmed floor {minimum}"
-            )
     viol = rep.violations()
+    floor_fail = [
+        f"rule {rule} matched {rep.count(rule)} instance(s), below the confirmed floor {minimum}"
+        for rule, minimum in rep.floors.items()
+        if rep.count(rule) < minimum
+    ]
+    if floor_fail and not any(o.key not in open_keys for o in viol):
+        # fewer instances than confirmed by hand and nothing else to report: the rule may be
+        # passing vacuously, which is an analysis failure, not a verdict
+        raise AnalysisError(f"{rep.prop}: " + "; ".join(floor_fail))
     unlisted = []
     listed = []
     for o in viol:
